@@ -20,7 +20,12 @@ CONC_TXT = ("The real code runs under a cooperative scheduler (parking_lot shim:
             "and in macro output is a scheduling point); schedules of short 2-3 thread programs are enumerated depth-first with a "
             "preemption bound and sampled at random. A deadlock is reported only when the real code reaches 'some thread "
             "unfinished, nothing grantable' and TLC confirms the wait-for cycle; every completed schedule is logged (operation "
-            "results, lock grants, state at quiescence, sequential probe) and judged by TLC (QuiesceFails, sequential monitors).")
+            "results, lock grants, state at quiescence, sequential probe) and judged by TLC (QuiesceFails, sequential monitors). "
+            "The scheduler also detects parking_lot's writer-preference deadlocks (a read queued behind a waiting writer); "
+            "cold-start programs (a function's first call and its Once registrations inside the concurrent section) run one "
+            "fresh process per schedule. TLC proves NoDeadlock/QuiescentConsistent/ValuesCorrect on Conc.tla (cache locks) and "
+            "NoDeadlock/QuiescentClean/FlatRegistry on Reg.tla (registry locks under writer preference), refutes them with the "
+            "as-found/seeded protocols, and replays the recorded schedules grant by grant in ConcTrace.tla / RegTrace.tla.")
 CLAIMS = {
   "C01": ("engine-seq+macro-seq", ENGINE_TXT + " " + MACRO_TXT, "6 C01"),
   "C02": ("keys", KEYS_TXT, "6 C02"),
@@ -88,7 +93,7 @@ m = {"version": 1,
           "serves_properties": sorted(p for p, c in CLAIMS.items() if "macro-seq" in c[0]), "kind_free_text": "TLA+ spec + TLC; Rust conformance harness over macro-generated fixtures (verif-hooks inspectors)"},
          {"name": "keys", "path": "spec/Keys.tla spec/KeysMC.tla spec/KeysTrace.tla harness/src/keyfix.rs lib/key_scripts.py",
           "serves_properties": ["C02"], "kind_free_text": "TLA+ spec of key rendering + TLC; key fixtures of 15 signatures (sync+async, methods)"},
-         {"name": "conc", "path": "harness/shim/parking_lot harness/src/conc.rs spec/SysMonitors.tla (QuiesceFails, GenuineDeadlock) spec/Trace.tla lib/conc_checks.py",
+         {"name": "conc", "path": "harness/shim/parking_lot harness/shim/dashmap harness/src/conc.rs spec/SysMonitors.tla (QuiesceFails, GenuineDeadlock) spec/Trace.tla spec/Conc.tla spec/ConcMC.tla spec/ConcTrace.tla spec/Reg.tla spec/RegMC.tla spec/RegTrace.tla lib/conc_checks.py",
           "serves_properties": ["C03", "C15", "C17", "C18"], "kind_free_text": "schedule exploration of the real code under a lock-granular cooperative scheduler; TLC judges the records"},
          {"name": "attrs", "path": "spec/Attrs.tla lib/attr_corpus.py lib/gen_fixtures.py harness/src/corpus_gen_real.rs lib/attrs_check.py",
           "serves_properties": ["C19"], "kind_free_text": "TLA+ meaning of attribute lists + generated corpus of decorated functions (valid: compiled and driven; invalid: must not compile)"},
